@@ -500,6 +500,47 @@ func VerifC07_NoSelfOverlap() {
 	rt.Reach("overlap-end")
 }
 
+// one submission, one run: the max delay of a queued task expires at the very
+// moment the queue comes to it - both handlers then hold the task, in every
+// order of their steps; it is still executed once only
+func VerifC07_OneSubmissionOneRun() {
+	rt.SchedYieldOnly(true)
+	rt.Preemptions(1)
+	rt.PreemptedRunLast(true)
+	rt.TimersFireTogether(true)
+	m := c07Reset()
+	u := rt.Unit()
+	runs := 0
+	b := m.NewTask("b", func(context.Context, *Task) error {
+		time.Sleep(u) // occupies the queue's slot until the other task's max delay expires
+		return nil
+	}).MaxDelay(0)
+	t := m.NewTask("t", func(context.Context, *Task) error {
+		runs++
+		return nil
+	}).MaxDelay(u)
+	go func() {
+		for {
+			taskTimeslot <- struct{}{}
+		}
+	}()
+	go taskQueueHandler()
+	go taskScheduleHandler()
+	b.Queue()
+	switch rt.Choice("submit", 3) {
+	case 0:
+		t.Queue()
+	case 1:
+		t.QueuePrioritized()
+	case 2:
+		t.StartASAP()
+	}
+	rt.Quiesce(10 * time.Minute)
+	rt.Assert(runs >= 1, "onesubmission/executed")
+	rt.Assert(runs <= 1, "onesubmission/not-more-often-than-submitted")
+	rt.Reach("onesubmission-end")
+}
+
 // a re-submission while the task executes, whose max delay expires before the
 // execution ends: the schedule handler finds the task executing - the
 // submission is carried over, not lost
